@@ -79,6 +79,17 @@ func ResetVars() {
 
 func init() { ResetVars() }
 
+// Assign stores a real implementation (or nil) into the variable v points to, the way user code
+// would between two mocks.
+func Assign(v interface{}, impl bool) {
+	rv := reflect.ValueOf(v).Elem()
+	if impl {
+		rv.Set(reflect.ValueOf(&Impl{Tag: 99}))
+	} else {
+		rv.Set(reflect.Zero(rv.Type()))
+	}
+}
+
 // Rec records what an interface-method replacement saw.
 type Rec struct {
 	mu      sync.Mutex
